@@ -28,8 +28,8 @@ def run(idx, rep, tier):
     epa.r_winding(idx, rep)
     epa.r_mtv(idx, rep)
     mink.r_mink(idx, rep, modules=["distance3d.epa"], floor=2)
-    buffers.r_guardstore(idx, rep, modules=set(MODS), floor=3)
-    loops.r_loop(idx, rep, MODS, floor=5, allowed=("CAP", "STRUCT"))
+    buffers.r_guardstore(idx, rep, modules=set(MODS), floor=2)
+    loops.r_loop(idx, rep, MODS, floor=3, allowed=("CAP", "STRUCT"))
     # R-FACEROLE: rows 0-2 of a face are vertices (degree 1), row 3 the unit normal (degree 0) wherever a face is read or written
     import ast as _ast
     faces = dict(degree.EPA_FACES)
